@@ -204,6 +204,8 @@ impl<R: Read> LineProcessor<R> {
 
             if batch.len() >= batch_size {
                 if !handler(&batch)? {
+                    // Already delivered: must not be handed to the handler again below
+                    batch.clear();
                     break;
                 }
                 total_processed += batch.len();
